@@ -9,3 +9,57 @@ Theorem C03_null :
     undo_null_move zt (fst (do_null_move zt s)) (snd (do_null_move zt s)) = s.
 Proof. exact null_move_roundtrip. Qed.
 Print Assumptions C03_null.
+
+(* Ordinary moves.  For EVERY state of the algorithmic model of Position (any board, any Zobrist table) and every
+   applicable move, undo_move after do_move restores all observable scalars:
+     obs s = (side, half-move clock, ply, board, castling rights, en-passant square, all five key components, history).
+   The hypotheses are what legality gives: squares on the board and distinct, the target holds nothing or an enemy
+   piece, a promoting piece is the mover's pawn, castling passes over empty squares, an en-passant capture removes the
+   enemy pawn behind the target.  [base_ok]: 64 squares, side < 2, clock < 256, rights < 16, ep square on the board,
+   castling / ep key components consistent with the state. *)
+From CV Require Import Engine.RepRoundTrip Engine.RepRoundTripNormal Engine.Encoding.
+
+Theorem C03_undo_do_castling : forall zt s (ks : bool),
+  base_ok zt s ->
+  let rank := if r_side s =? 0 then 0 else 7 in
+  nthd (r_board s) (sq_at rank (if ks then 6 else 2)) 0 = 0 ->
+  nthd (r_board s) (sq_at rank (if ks then 5 else 3)) 0 = 0 ->
+  let m := if ks then KING_CASTLING_MOVE else QUEEN_CASTLING_MOVE in
+  obs (undo_move zt (fst (do_move zt s m)) m (snd (do_move zt s m))) = obs s.
+Proof. exact castle_roundtrip. Qed.
+Print Assumptions C03_undo_do_castling.
+
+(* quiet moves, captures, promotions, promotions with capture *)
+Theorem C03_undo_do_normal : forall zt s from to promo cap,
+  base_ok zt s -> from < 64 -> to < 64 -> from <> to -> promo < 8 ->
+  nthd (r_board s) to 0 = cap -> make_piece (1 - r_side s) (pc_kind cap) = cap ->
+  (promo <> 0 -> nthd (r_board s) from 0 = make_piece (r_side s) PAWN) ->
+  is_ep_flag s from to = false ->
+  let m := create_promotion from to promo in
+  obs (undo_move zt (fst (do_move zt s m)) m (snd (do_move zt s m))) = obs s.
+Proof. exact normal_roundtrip. Qed.
+Print Assumptions C03_undo_do_normal.
+
+Theorem C03_undo_do_en_passant : forall zt s from to,
+  base_ok zt s -> from < 64 -> to < 64 -> from <> to ->
+  nthd (r_board s) to 0 = 0 -> is_ep_flag s from to = true ->
+  capsq s to < 64 -> capsq s to <> from -> capsq s to <> to ->
+  nthd (r_board s) (capsq s to) 0 = make_piece (1 - r_side s) PAWN ->
+  let m := create_promotion from to 0 in
+  obs (undo_move zt (fst (do_move zt s m)) m (snd (do_move zt s m))) = obs s.
+Proof. exact ep_roundtrip. Qed.
+Print Assumptions C03_undo_do_en_passant.
+
+(* C03_undo_do_partial: what is NOT covered by these theorems are the piece lists and the two bitboard families (restored
+   up to the permutation that swap-remove introduces); they are tied field by field by the correspondence (op walk). *)
+
+(* non-vacuity: the start position satisfies base_ok, and 1.e4 meets the hypotheses of C03_undo_do_normal *)
+Example C03_example :
+  let zt := {| z_piece := fun p s => p * 64 + s + 1; z_castling := fun c => 1000 + c; z_side := 7777; z_ep := fun f => 3000 + f |} in
+  let s := rep_of_position zt Rules.initial_position in
+  length (r_board s) = 64%nat /\ r_side s = 0 /\ r_hmc s = 0 /\ r_castling s = 15 /\ r_ep s = None /\
+  k_castling (r_key s) = z_castling zt (r_castling s) /\ k_ep (r_key s) = 0 /\
+  nthd (r_board s) 28 0 = 0 /\ is_ep_flag s 12 28 = false /\
+  obs (undo_move zt (fst (do_move zt s (create_promotion 12 28 0))) (create_promotion 12 28 0)
+                 (snd (do_move zt s (create_promotion 12 28 0)))) = obs s.
+Proof. vm_compute. repeat split; reflexivity. Qed.
